@@ -347,6 +347,8 @@ pub(crate) fn extract_title(line: &str) -> Option<(String, String)> {
 /// On the first line ending in foo, this function returns the backticks and
 /// the language. On all other lines it returns None.
 pub(crate) fn extract_code_block_start(line: &str) -> Option<(&str, &str, &str)> {
+    // trailing whitespace is not part of the info string (language and config)
+    let line = line.trim_end();
     if line == "```" {
         return Some((line, "", ""));
     }
